@@ -157,7 +157,22 @@ func fillContainers(containers map[*container.Container][]string) error {
 	return nil
 }
 
+// config identifies a call to apply: its outcome only depends on the state, on the remaining args and
+// on whether options are still accepted
+type config struct {
+	state         *State
+	rejectOptions bool
+	args          string
+}
+
 func (s *State) apply(args []string, pc matcher.ParseContext) bool {
+	return s.applyOnce(args, pc, map[config]bool{})
+}
+
+// applyOnce does the work of apply. tried holds the configurations already explored: one that is met again,
+// be it further down the same path or on another branch, cannot succeed, and going through it again
+// may never end (matchers that succeed without consuming anything inside a repetition)
+func (s *State) applyOnce(args []string, pc matcher.ParseContext, tried map[config]bool) bool {
 	if len(args) > 0 {
 		arg := args[0]
 
@@ -171,6 +186,12 @@ func (s *State) apply(args []string, pc matcher.ParseContext) bool {
 	if s.Terminal && len(args) == 0 {
 		return true
 	}
+
+	here := config{s, pc.RejectOptions, fmt.Sprintf("%q", args)}
+	if tried[here] {
+		return false
+	}
+	tried[here] = true
 
 	type match struct {
 		tr  *Transition
@@ -188,7 +209,7 @@ func (s *State) apply(args []string, pc matcher.ParseContext) bool {
 	}
 
 	for _, m := range matches {
-		if ok := m.tr.Next.apply(m.rem, m.pc); ok {
+		if ok := m.tr.Next.applyOnce(m.rem, m.pc, tried); ok {
 			pc.Merge(m.pc)
 			return true
 		}
